@@ -308,6 +308,8 @@ def build(s: dict, ch: Optional[dict] = None, rng: Optional[random.Random] = Non
         return rng.choice(ch["zlevels"])
 
     def junk(n):
+        if ch.get("junk_pattern"):
+            return (ch["junk_pattern"] * n)[:n]          # every reserved / unused run starts with this pattern (probe sprites)
         if not ch["unused"]:
             return b"\0" * n
         if rng.random() < 0.35:
@@ -323,7 +325,7 @@ def build(s: dict, ch: Optional[dict] = None, rng: Optional[random.Random] = Non
         for c in chunks:
             if ch["ignorable"] and rng.random() < ch["ignorable"]:
                 # payload sizes from nothing to several kilobytes (a 64 x 64 mask chunk has 539 bytes)
-                out.append(ase.RawChunk(rng.choice(IGNORABLE), bytes(rng.randrange(256) for _ in range(rng.choice([0, 1, 3, 12, 36, 127, 128, 129, 539, 4100])))))
+                out.append(ase.RawChunk(rng.choice(IGNORABLE), bytes(rng.randrange(256) for _ in range(rng.choice(ch.get("ign_sizes") or [0, 1, 3, 12, 36, 127, 128, 129, 539, 4100])))))
             if ch["tails"] and rng.random() < ch["tails"] and not isinstance(c, ase.RawChunk):
                 c.tail = bytes(rng.randrange(256) for _ in range(rng.choice([1, 2, 16, 16, 127, 128, 129, 300, 5000])))
             out.append(c)
